@@ -66,6 +66,10 @@ const (
 	kpDataBeforeAck
 	kpSendSpareCap
 	kpSendSharedPayload
+	kpRecvLenField
+	kpNoWaitBurst
+	kpAckDelayedPastCall
+	kpBigErrorAck
 	nKProbes
 )
 
@@ -77,7 +81,8 @@ var kProbeNames = []string{"unsolicited_record_skipped_inside_call", "eagain_x9_
 	"close_cleared_pid", "getrules_buffer_overwritten_later", "sends_overlapped_in_time", "receive_short_datagram", "receive_foreign_port_id",
 	"receive_non_netlink_address", "short_after_long_datagram", "send_payload_8970", "send_with_caller_pid", "porcupine_histories_checked",
 	"sendto_failed", "kernel_immutable", "receive_foreign_port_id_with_group_mask", "receive_foreign_port_id_2^31_or_more", "getstatus_result_checked_again_at_end", "receive_on_two_independent_clients_in_tasks", "forged_reply_queued_ahead_of_the_kernels", "ack_datagram_truncated", "setters_on_two_clients_in_two_tasks", "socket_close_reported_an_error", "receive_failed_with_enobufs_inside_call", "sequence_counter_started_next_to_wrap",
-	"verdict_left_unread_by_a_failed_call", "status_reply_ahead_of_its_ack", "send_payload_with_spare_capacity", "send_same_payload_slice_again"}
+	"verdict_left_unread_by_a_failed_call", "status_reply_ahead_of_its_ack", "send_payload_with_spare_capacity", "send_same_payload_slice_again",
+	"receive_datagram_whose_length_field_differs_from_its_size", "more_than_16_nowait_requests_outstanding", "ack_delayed_past_a_whole_waitforpendingacks_call", "error_ack_echoing_a_request_of_8900_bytes_or_more"}
 
 var kFaultNames = []string{"injected_errno", "unsolicited_records", "stale_reply", "delayed_reply", "truncated_or_padded_reply", "spoofed_datagram",
 	"recv_eintr", "recv_eagain_injected", "recv_eagain_natural", "sendto_errno", "concurrent_close_tasks", "concurrent_send_tasks"}
@@ -226,6 +231,7 @@ func ExecKPlan(p *KPlan, trace bool) *core.Result {
 	res.Faults[kfDelay] += k.FiredDelay
 	res.Faults[kfTrunc] += k.FiredTrunc
 	res.Faults[kfSpoof] += k.FiredSpoof
+	res.Probes[kpBigErrorAck] += k.FiredBigAck
 	res.Faults[kfEintr] += port.injEintr
 	res.Faults[kfEagainInj] += port.injEagain
 	res.Faults[kfEagainNat] += port.naturalEagain
@@ -407,6 +413,13 @@ func (c *kctx) execOp(i int, op KOp) {
 
 	switch c.p.Scenario {
 	case 16:
+		if sendFailed > 0 {
+			// the request of this call was refused by sendto: nothing reached the kernel, nothing to decode
+			for _, d := range k.Queue {
+				d.Consumed = true
+			}
+			return
+		}
 		c.callHard = c.port.hardFired > hard0
 		if c.callHard {
 			c.res.Probes[kpRecvHard]++
@@ -852,13 +865,20 @@ func (c *kctx) execWaitAcks(i int, auto bool) {
 	k := c.k
 	recv0 := c.port.recvCalls
 	nat0 := c.port.naturalEagain
+	hard0 := c.port.hardFired
 	t0 := time.Since(c.start)
 	// what is consumed during the call
 	consumedBefore := map[*kern.Datagram]bool{}
+	delayed := false // an ACK that is due is not receivable yet when the call starts
 	for _, d := range k.Queue {
 		if d.Consumed {
 			consumedBefore[d] = true
+		} else if d.AvailAt > int64(t0) {
+			delayed = true
 		}
+	}
+	if len(c.pending) > 16 {
+		c.res.Probes[kpNoWaitBurst]++
 	}
 	var err error
 	panicked := ""
@@ -870,6 +890,12 @@ func (c *kctx) execWaitAcks(i int, auto bool) {
 		}()
 		err = c.client.WaitForPendingACKs()
 	}()
+	// the call was cut short from outside: a receive failed hard, or an ACK
+	// was still under way when it began (it may give up after its polls)
+	hardInCall := c.port.hardFired > hard0
+	if hardInCall {
+		c.res.Probes[kpRecvHard]++
+	}
 	elapsed := time.Since(c.start) - t0
 	c.mix(0x17<<32 ^ uint64(c.port.recvCalls-recv0))
 	if err != nil {
@@ -904,11 +930,22 @@ func (c *kctx) execWaitAcks(i int, auto bool) {
 			got = append(got, d.Req)
 		}
 	}
-	if judge {
+	cut := false
+	if (hardInCall || delayed) && len(got) < len(expect) && fmt.Sprint(got) == fmt.Sprint(expect[:len(got)]) {
+		// It stopped early, in order. It must say so, and what it left is still pending.
+		cut = true
+		if delayed {
+			c.res.Probes[kpAckDelayedPastCall]++
+		}
+		if err == nil && judge {
+			c.viol("waitacks-swallowed", "WaitForPendingACKs", "WaitForPendingACKs returned nil although the ACKs of requests %v were not consumed (pending %v)", expect[len(got):], c.pending)
+		}
+	}
+	if judge && !cut {
 		if fmt.Sprint(got) != fmt.Sprint(expect) {
 			c.viol("acks-consumed", "WaitForPendingACKs", "WaitForPendingACKs consumed the ACKs of requests %v; pending in send order were %v, so %v were due (first kernel error stops the call)", got, c.pending, expect)
 		}
-		if c.port.naturalEagain != nat0 {
+		if c.port.naturalEagain != nat0 && !delayed {
 			c.viol("re-wait", "WaitForPendingACKs", "WaitForPendingACKs polled an empty socket %d times (%s of simulated stall): it waited for an ACK that is not outstanding (pending %v)", c.port.naturalEagain-nat0, elapsed, c.pending)
 		}
 		if wantErrno == 0 && err != nil {
@@ -922,7 +959,7 @@ func (c *kctx) execWaitAcks(i int, auto bool) {
 			}
 		}
 	}
-	if wantErrno != 0 {
+	if wantErrno != 0 && !cut {
 		c.res.Probes[kpWaitAcksStoppedAtError]++
 		c.hadWaitErr = true
 	}
@@ -937,7 +974,7 @@ func (c *kctx) execWaitAcks(i int, auto bool) {
 			left = append(left, idx)
 		}
 	}
-	if len(left) == len(c.pending) && len(c.pending) > 0 && auto {
+	if len(left) == len(c.pending) && len(c.pending) > 0 && auto && !delayed && !hardInCall {
 		// no progress: give up on these (reported above when judged)
 		for _, d := range k.Queue {
 			d.Consumed = true
@@ -1518,6 +1555,13 @@ func (c *kctx) execRecvRaw(i int, op KOp) {
 	if n >= 16 {
 		// a plausible header so that length-trusting parsers have something to trust
 		putU32(data[0:], uint32(n))
+		if v := (op.C >> 19) & 15; v >= 8 {
+			// the length field of audit datagrams is not to be trusted: the kernel has
+			// written the payload length there, and a record cut by the read buffer
+			// announces more than was received
+			putU32(data[0:], []uint32{uint32(n) + 1, 8986, 1<<32 - 1, 0, uint32(n) - 16, 16, uint32(n) - 1, uint32(n) * 2}[v-8])
+			c.res.Probes[kpRecvLenField]++
+		}
 		putU16(data[4:], uint16(1300+i))
 		putU32(data[8:], 0)
 	}
